@@ -7,5 +7,6 @@ package text
 
 //@ func (*Caser).Identifierize
 //@   props C14
+//@   trusted used at call sites as an unknown-but-deterministic string; its own posts (valid, exported, no underscore) are checked by the bounded stand-in of /verif (C14), not proved
 //@   option pure
 //@   assigns nothing
